@@ -31,6 +31,7 @@ func (h nsErrHandler) Enabled(_ context.Context, l slog.Level) bool { return l >
 func (h nsErrHandler) Handle(_ context.Context, r slog.Record) error {
 	h.n.mu.Lock()
 	h.n.errLogs = append(h.n.errLogs, r.Message)
+	h.n.errLogsInc++
 	h.n.mu.Unlock()
 	return nil
 }
@@ -72,6 +73,15 @@ type nsLock struct {
 	Hash string
 }
 
+// nsDecision is a prevote decision the strategy returned.
+type nsDecision struct {
+	H   uint64
+	R   uint32
+	Op  int64
+	Inc int
+	Set bool
+}
+
 type nsOutMsg struct {
 	kind int
 	ph   tmconsensus.ProposedHeader
@@ -108,6 +118,11 @@ type nsNode struct {
 	outbox      []nsOutMsg
 	stratCalls  int64
 	errLogs     []string
+	errLogsInc  int               // error-level log lines of the current incarnation
+	viol        []nsFailure       // clause violations seen from engine-owned goroutines (strategy, driver)
+	appHashes   map[uint64][]byte // app state hash this node's driver returned per finalized height
+	prevoteDec  nsDecision        // last prevote decision handed to the state machine
+	enteredLive bool              // EnterRound was called in this incarnation
 
 	incarnation int
 	finsThisInc int
@@ -135,7 +150,7 @@ func nsNewNode(w *nsWorld, idx int) *nsNode {
 		rs:      tmmemstore.NewRoundStore(),
 		sms:     tmmemstore.NewStateMachineStore(),
 		vs:      tmmemstore.NewValidatorStore(w.hs),
-		nextFin: w.c.H0,
+		nextFin: w.c.H0, appHashes: map[uint64][]byte{},
 	}
 }
 
@@ -195,7 +210,7 @@ func (n *nsNode) runDriver(ctx context.Context, initCh <-chan tmdriver.InitChain
 				continue
 			}
 			select {
-			case req.Resp <- tmdriver.InitChainResponse{AppStateHash: nsGenesisAppHash}:
+			case req.Resp <- n.initChainResponse():
 			case <-ctx.Done():
 				return
 			}
@@ -208,6 +223,7 @@ func (n *nsNode) runDriver(ctx context.Context, initCh <-chan tmdriver.InitChain
 				FirstOfInc: n.finsThisInc == 0,
 			})
 			n.finsThisInc++
+			n.appHashes[h] = nsAppHash(h, req.Header.DataID)
 			n.mu.Unlock()
 			// Resp is 1-buffered by contract.
 			req.Resp <- tmdriver.FinalizeBlockResponse{
@@ -217,6 +233,22 @@ func (n *nsNode) runDriver(ctx context.Context, initCh <-chan tmdriver.InitChain
 			}
 		}
 	}
+}
+
+// initChainResponse: when the genesis document does not declare the chain's
+// real initial set, the application overrides it.
+func (n *nsNode) initChainResponse() tmdriver.InitChainResponse {
+	resp := tmdriver.InitChainResponse{AppStateHash: nsGenesisAppHash}
+	if n.w.c.Doc != 0 {
+		resp.Validators = n.w.gen.Validators
+	}
+	return resp
+}
+
+func (n *nsNode) violate(clause, format string, a ...any) {
+	n.mu.Lock()
+	n.viol = append(n.viol, nsFailure{clause: clause, detail: fmt.Sprintf("node %d (incarnation %d): ", n.idx, n.incarnation) + fmt.Sprintf(format, a...)})
+	n.mu.Unlock()
 }
 
 // ---------------------------------------------------------------------------
@@ -236,11 +268,16 @@ func (s *nsStrategy) EnterRound(ctx context.Context, rv tmconsensus.RoundView, p
 	defer s.mu.Unlock()
 	atomic.AddInt64(&s.n.stratCalls, 1)
 	s.curH, s.curR = rv.Height, rv.Round
-	nv := len(rv.ValidatorSet.Validators)
-	s.expProp = rv.ValidatorSet.Validators[nsProposerIdx(rv.Height, rv.Round, nv)].PubKey
-
 	n := s.n
+	// The proposer rotation runs over the set the chain prescribes (harness record).
+	s.expProp = n.w.pubs[nsProposerIdx(rv.Height, rv.Round, n.w.nVals)]
+	// C07: the view the node votes in carries the set the chain prescribes for that height.
+	if d := nsSameSet(rv.ValidatorSet, n.w.valsFor(rv.Height)); d != "" {
+		n.violate("c07-view-set", "enters height %d round %d with a view whose validator set is not the prescribed one: %s", rv.Height, rv.Round, d)
+	}
+
 	n.mu.Lock()
+	n.enteredLive = true
 	n.enterH, n.enterR = rv.Height, rv.Round
 	if rv.Round > n.maxRound {
 		n.maxRound = rv.Round
@@ -284,11 +321,76 @@ func (s *nsStrategy) pick(phs []tmconsensus.ProposedHeader) (string, bool) {
 	return "", false
 }
 
+// offered checks the proposals the state machine hands to the strategy against
+// the node's own round store: every proposal of the round's proposer that
+// carries the prescribed validator sets and this node's own app state hash must
+// be among them (C07: voted with the prescribed set; C10: nothing lost by a restart).
+// Only evaluated while the mirror's voting round is the machine's round
+// (a machine that ran ahead of its mirror gets no view updates).
+func (s *nsStrategy) offered(call string, phs []tmconsensus.ProposedHeader) {
+	n := s.n
+	vh, vr, _, _, err := n.ms.NetworkHeightRound(context.Background())
+	if err != nil || vh != s.curH || vr != s.curR {
+		return
+	}
+	stored, _, _, err := n.rs.LoadRoundState(context.Background(), s.curH, s.curR)
+	if err != nil {
+		return
+	}
+	var wantApp []byte
+	if s.curH == n.w.c.H0 {
+		wantApp = nsGenesisAppHash
+	} else {
+		n.mu.Lock()
+		wantApp = n.appHashes[s.curH-1]
+		n.mu.Unlock()
+		if wantApp == nil {
+			return
+		}
+	}
+	for _, ph := range stored {
+		if ph.ProposerPubKey == nil || !ph.ProposerPubKey.Equal(s.expProp) || ph.Round != s.curR || ph.Header.Height != s.curH {
+			continue
+		}
+		if ph.ProposerPubKey.Equal(n.signer.PubKey()) {
+			// The node's own proposal reaches its round store through the machine's own
+			// action, concurrently with a strategy call made for the view before it.
+			continue
+		}
+		if nsSameSet(ph.Header.ValidatorSet, n.w.valsFor(s.curH)) != "" || nsSameSet(ph.Header.NextValidatorSet, n.w.valsFor(s.curH+1)) != "" {
+			continue
+		}
+		if string(ph.Header.PrevAppStateHash) != string(wantApp) {
+			continue
+		}
+		found := false
+		for _, g := range phs {
+			found = found || string(g.Header.Hash) == string(ph.Header.Hash)
+		}
+		if !found {
+			n.violate("proposals-withheld", "%s at height %d round %d was not offered proposal %s of the round's proposer, which is in the node's round store and carries the prescribed validator sets and app state hash (%d proposals offered)", call, s.curH, s.curR, nsShort(ph.Header.Hash), len(phs))
+			return
+		}
+	}
+}
+
+func (s *nsStrategy) decided() {
+	n := s.n
+	n.mu.Lock()
+	n.prevoteDec = nsDecision{H: s.curH, R: s.curR, Inc: n.incarnation, Set: true}
+	if n.x != nil {
+		n.prevoteDec.Op = atomic.LoadInt64(&n.x.now)
+	}
+	n.mu.Unlock()
+}
+
 func (s *nsStrategy) ConsiderProposedBlocks(ctx context.Context, phs []tmconsensus.ProposedHeader, _ tmconsensus.ConsiderProposedBlocksReason) (string, error) {
 	s.mu.Lock()
 	defer s.mu.Unlock()
 	atomic.AddInt64(&s.n.stratCalls, 1)
+	s.offered("ConsiderProposedBlocks", phs)
 	if h, ok := s.pick(phs); ok {
+		s.decided()
 		return h, nil
 	}
 	return "", tmconsensus.ErrProposedBlockChoiceNotReady
@@ -298,6 +400,8 @@ func (s *nsStrategy) ChooseProposedBlock(ctx context.Context, phs []tmconsensus.
 	s.mu.Lock()
 	defer s.mu.Unlock()
 	atomic.AddInt64(&s.n.stratCalls, 1)
+	s.offered("ChooseProposedBlock", phs)
+	s.decided()
 	if h, ok := s.pick(phs); ok {
 		return h, nil
 	}
@@ -308,6 +412,10 @@ func (s *nsStrategy) DecidePrecommit(ctx context.Context, vs tmconsensus.VoteSum
 	s.mu.Lock()
 	defer s.mu.Unlock()
 	atomic.AddInt64(&s.n.stratCalls, 1)
+	// C07: thresholds are taken over the prescribed set's total power.
+	if want := nsSum(s.n.w.powersFor(s.curH)); vs.AvailablePower != want {
+		s.n.violate("c07-view-set", "DecidePrecommit at height %d round %d reports available power %d, the prescribed set has %d", s.curH, s.curR, vs.AvailablePower, want)
+	}
 	// Like every strategy in the repository, the threshold comes from the library.
 	maj := tmconsensus.ByzantineMajority(vs.AvailablePower)
 	best := ""
@@ -353,7 +461,10 @@ func (n *nsNode) start(parent context.Context) error {
 
 	n.mu.Lock()
 	n.enterH, n.enterR = 0, 0
+	n.enteredLive = false
+	n.errLogsInc = 0
 	n.mu.Unlock()
+	genDoc := n.w.doc
 
 	e, err := tmengine.New(
 		wctx, n.logger(),
@@ -376,7 +487,7 @@ func (n *nsNode) start(parent context.Context) error {
 			ChainID:             "netsim",
 			InitialHeight:       n.w.c.H0,
 			InitialAppState:     strings.NewReader(""),
-			GenesisValidatorSet: n.w.gen,
+			GenesisValidatorSet: genDoc,
 		}),
 		tmengine.WithTimeoutStrategy(wctx, nsTimeouts{x: n.x}),
 
